@@ -1753,7 +1753,7 @@ int bufr_value_nbits(int64_t val)
       }
    else
       {
-      ival = abs(val);
+      ival = (uint64_t)0 - (uint64_t)val;  /* not abs(): val is 64 bits wide and may be INT_MIN */
       for ( i = 1 ; i <= 64 ; i++ )
          if (bnegval[i-1] > ival) break;
       }
